@@ -107,6 +107,10 @@ func Graph(r *rand.Rand, s *model.Schema, o GraphOpts) *model.Graph {
 				n.F[f.Name] = n
 				continue
 			}
+			if f.Name == "selfList" && n.Type == s.Query {
+				n.F[f.Name] = model.VList{n}
+				continue
+			}
 			n.F[f.Name] = value(f.Type, 0)
 		}
 	}
